@@ -16,8 +16,8 @@ race=$(sed -n '2s/^race: *//p' "$dst/notes.md" | tr -d '`\r ')
 racearg=""; raceb=false
 case "$race" in yes*) racearg=race; raceb=true;; esac
 python3 - "$dst/meta.json" "$prop" "$letter" "$pkg" "$raceb" <<'PY'
-import json,sys
+import json,sys,os
 f,prop,letter,pkg,race=sys.argv[1:]
-json.dump({"id":f"{prop}-{letter}","breaks_property":prop,"written_by":"independent sub-agent, ninth round (13 properties, three changes each; brief: realistic maintenance changes that need something specific to manifest)","demo":"zz_demo_test.go","demo_package_dir":pkg,"demo_needs_race_or_repetition":race=="true","needs_to_manifest":"","expected_checks":[prop],"what_i_ran":f"tools/eval_seed.sh seeded/{prop}-{letter} {pkg} -- {prop}","result":""},open(f,"w"),indent=1)
+json.dump({"id":f"{prop}-{letter}","breaks_property":prop,"written_by":"independent sub-agent, "+os.environ.get("ROUND_DESC","ninth round (13 properties, three changes each; brief: realistic maintenance changes that need something specific to manifest)")+"","demo":"zz_demo_test.go","demo_package_dir":pkg,"demo_needs_race_or_repetition":race=="true","needs_to_manifest":"","expected_checks":[prop],"what_i_ran":f"tools/eval_seed.sh seeded/{prop}-{letter} {pkg} -- {prop}","result":""},open(f,"w"),indent=1)
 PY
 "$VERIF/tools/eval_seed.sh" "$dst" "$pkg" $racearg -- "$prop" "$@"
